@@ -4,9 +4,10 @@
      C01_fragment_preservation -- semantic preservation of the backend model (Back/IR.v `lower` + the AST
      twin Pres/EmitAst.v of the text emitter Back/Emit.v) with respect to the reference interpreter
      Sem/SyltSem.v (source side) and the Lua 5.3 interpreter model Lua/LuaCore.v (target side), for the
-     computable fragment Pres/Frag.v `frag` (STAGE 3a: int/bool expressions, print, definitions, assignments
+     computable fragment Pres/Frag.v `frag` (STAGE 3b: int/bool expressions, print, definitions, assignments
      = += -= *=, if/elif/else expressions and statements, loops with break and continue, blocks, inside
-     `start :: fn do ... end`, and top-level global definitions of such expressions before start).  The Lua side runs the statements of the
+     `start :: fn do ... end`; top-level global values and top-level FUNCTIONS with parameters before start,
+     called by name, recursion included; the value of a function is that of its last expression).  The Lua side runs the statements of the
      REAL preamble.lua (Gen/GenPreamble.v, regenerated on every run) followed by the program's statements.
    WHAT IS CHECKED AT RUN TIME, per program of the tie (tools/props/c01.py):
      * component "emit_ast": LuaParse.parse_lua Lua53 (real compiler output) = ParseOk (chunk_ast code), i.e. the
@@ -207,6 +208,65 @@ Example C01_example3_lua_side :
   match lower 30 ex_prog3 with
   | Ok code => let out := LuaCore.run_block Lua53 4000 (chunk_ast code) in
                o_trace out = ["18"; "true"; "3"]%string /\ o_final out = FDone
+  | _ => False
+  end.
+Proof. vm_compute. split; reflexivity. Qed.
+
+(* ---- a fourth program (stage 3b): top-level functions with parameters, calls, recursion ----
+     g :: 2
+     add :: fn a: int, b: int -> int do
+       print(a)
+       a + b * g
+     end
+     fact :: fn n: int -> int do
+       if n <= 1 do 1 else n * fact(n - 1) end
+     end
+     start :: fn do
+       x := add(3, 4)
+       print(x)
+       print(fact(5) + add(x, 1))
+     end                                                                                        *)
+Definition ex_prog4 : resolved :=
+  mkResolved
+    [mkVar 0 "print" sp0 true Const; mkVar 1 "g" sp0 true Const; mkVar 2 "add" sp0 true Const; mkVar 3 "fact" sp0 true Const;
+     mkVar 4 "start" sp0 true Const; mkVar 5 "== STACK ==" sp0 false Const; mkVar 6 "a" sp0 false Const; mkVar 7 "b" sp0 false Const;
+     mkVar 8 "n" sp0 false Const; mkVar 9 "x" sp0 false Mutable]
+    [SExternalDefinition "print" 0 Const (TImplied sp0) sp0;
+     SDefinition "g" 1 Const (TImplied sp0) (EInt 2 sp0) sp0;
+     SDefinition "add" 2 Const (TImplied sp0)
+       (EFunction "lambda" [("a"%string, 6%N, sp0, TImplied sp0); ("b"%string, 7%N, sp0, TImplied sp0)] (TImplied sp0)
+          [SStatementExpression (Resolved.ECall (ERead 0 sp0) [ERead 6 sp0] sp0) sp0;
+           SStatementExpression (EBinOp Add (ERead 6 sp0) (EBinOp Mul (ERead 7 sp0) (ERead 1 sp0) sp0) sp0) sp0]
+          false sp0) sp0;
+     SDefinition "fact" 3 Const (TImplied sp0)
+       (EFunction "lambda" [("n"%string, 8%N, sp0, TImplied sp0)] (TImplied sp0)
+          [SStatementExpression
+             (EIf [IfBranch (Some (EBinOp LessEqual (ERead 8 sp0) (EInt 1 sp0) sp0)) [SStatementExpression (EInt 1 sp0) sp0] sp0;
+                   IfBranch None
+                     [SStatementExpression
+                        (EBinOp Mul (ERead 8 sp0)
+                           (Resolved.ECall (ERead 3 sp0) [EBinOp Sub (ERead 8 sp0) (EInt 1 sp0) sp0] sp0) sp0) sp0] sp0] sp0) sp0]
+          false sp0) sp0;
+     SDefinition "start" 4 Const (TImplied sp0)
+       (EFunction "lambda" [] (TImplied sp0)
+          [SDefinition "x" 9 Mutable (TImplied sp0) (Resolved.ECall (ERead 2 sp0) [EInt 3 sp0; EInt 4 sp0] sp0) sp0;
+           SStatementExpression (Resolved.ECall (ERead 0 sp0) [ERead 9 sp0] sp0) sp0;
+           SStatementExpression
+             (Resolved.ECall (ERead 0 sp0)
+                [EBinOp Add (Resolved.ECall (ERead 3 sp0) [EInt 5 sp0] sp0)
+                            (Resolved.ECall (ERead 2 sp0) [ERead 9 sp0; EInt 1 sp0] sp0) sp0] sp0) sp0]
+          false sp0) sp0].
+
+Example C01_example4_hypotheses :
+  frag 30 ex_prog4 = true /\
+  (exists code, lower 30 ex_prog4 = Ok code) /\
+  SyltSem.run 40 ex_prog4 = mkRun ["3"; "11"; "11"; "133"]%string ODone.
+Proof. split; [vm_compute; reflexivity | split; [eexists; vm_compute; reflexivity | vm_compute; reflexivity]]. Qed.
+
+Example C01_example4_lua_side :
+  match lower 30 ex_prog4 with
+  | Ok code => let out := LuaCore.run_block Lua53 4900 (chunk_ast code) in
+               o_trace out = ["3"; "11"; "11"; "133"]%string /\ o_final out = FDone
   | _ => False
   end.
 Proof. vm_compute. split; reflexivity. Qed.
